@@ -1,0 +1,293 @@
+// SPDX-License-Identifier: Apache-2.0
+//
+// Copyright 2025 Cisco Systems, Inc. and its affiliates
+//
+// Licensed under the Apache License, Version 2.0 (the "License");
+// you may not use this file except in compliance with the License.
+// You may obtain a copy of the License at
+//
+//     http://www.apache.org/licenses/LICENSE-2.0
+//
+// Unless required by applicable law or agreed to in writing, software
+// distributed under the License is distributed on an "AS IS" BASIS,
+// WITHOUT WARRANTIES OR CONDITIONS OF ANY KIND, either express or implied.
+// See the License for the specific language governing permissions and
+// limitations under the License.
+
+//! verification hooks, compiled only with the cargo feature `verif`.
+//!
+//! everything in here observes generation; nothing changes what is generated,
+//! except `TraceCfg::script`, which (when non-empty) dictates the opcode
+//! choices of the generation loop so an external harness can walk the
+//! generator's decision tree, and `TraceCfg::fuel`, which turns a runaway
+//! emission loop into a panic with a fixed message.
+//!
+//! the sink is thread-local: a harness calls `start()`, runs one generation
+//! on the same thread and collects the record with `take()`.
+
+pub use crate::generator::{EntropySource, GenerationSource};
+
+use crate::generator::Generator;
+use crate::opcodes::OpcodeKind;
+use crate::stack::StackObject;
+use std::cell::RefCell;
+
+/// message of the panic raised when `TraceCfg::fuel` runs out.
+pub const FUEL_PANIC: &str = "verif: emission fuel exhausted";
+
+/// generation phase a step belongs to.
+pub const PHASE_BODY: u8 = 1;
+pub const PHASE_TAIL: u8 = 2;
+pub const PHASE_STOP: u8 = 3;
+
+/// kind tags used in `Step::stack`.
+pub mod tag {
+    pub const INT: u8 = 0;
+    pub const FLOAT: u8 = 1;
+    pub const BOOL: u8 = 2;
+    pub const NONE: u8 = 3;
+    pub const BYTES: u8 = 4;
+    pub const STRING: u8 = 5;
+    pub const BYTEARRAY: u8 = 6;
+    pub const LIST: u8 = 7;
+    pub const TUPLE: u8 = 8;
+    pub const DICT: u8 = 9;
+    pub const SET: u8 = 10;
+    pub const FROZENSET: u8 = 11;
+    pub const MARK: u8 = 12;
+    pub const GLOBAL: u8 = 13;
+    pub const INSTANCE: u8 = 14;
+    pub const CALLABLE: u8 = 15;
+    pub const EXTENSION: u8 = 16;
+    pub const ANY: u8 = 17;
+}
+
+/// what to record during the next generation on this thread.
+#[derive(Debug, Clone, Default)]
+pub struct TraceCfg {
+    /// record one `Step` per emitted body/tail/stop opcode.
+    pub record_steps: bool,
+    /// also record the candidate opcode list of every body step.
+    pub record_valid: bool,
+    /// opcode bytes the generation loop must choose, in order; when the
+    /// script is used up (or names an opcode that is not a candidate) the
+    /// loop draws from its entropy source as usual.
+    pub script: Vec<u8>,
+    /// upper bound on emissions; exceeding it panics with `FUEL_PANIC`.
+    pub fuel: Option<u64>,
+}
+
+/// state of the simulated machine right after one emission.
+#[derive(Debug, Clone, Default, PartialEq, Eq)]
+pub struct Step {
+    pub phase: u8,
+    /// byte of the opcode kind the loop chose (body) or emitted (tail/stop).
+    pub opcode: u8,
+    /// length of the output buffer after the emission.
+    pub out_len: usize,
+    /// kind tag of every simulated stack slot, bottom first.
+    pub stack: Vec<u8>,
+    /// defined memo indices, ascending.
+    pub memo: Vec<usize>,
+    /// candidate opcodes the choice was made from (body steps, if requested).
+    pub valid: Vec<u8>,
+}
+
+/// record of one generation.
+#[derive(Debug, Clone, Default, PartialEq, Eq)]
+pub struct Trace {
+    /// a generation reached the body loop while the sink was active.
+    pub started: bool,
+    pub use_frame: bool,
+    pub target_opcodes: usize,
+    /// output length when the body loop started (PROTO + reserved FRAME).
+    pub header_len: usize,
+    pub body_steps: usize,
+    pub tail_steps: usize,
+    pub stop_steps: usize,
+    /// script entries consumed / entries that were not among the candidates.
+    pub script_used: usize,
+    pub script_misses: usize,
+    pub steps: Vec<Step>,
+}
+
+#[derive(Default)]
+struct Sink {
+    on: bool,
+    cfg: TraceCfg,
+    phase: u8,
+    pos: usize,
+    emitted: u64,
+    pending_valid: Vec<u8>,
+    trace: Trace,
+}
+
+thread_local! {
+    static SINK: RefCell<Sink> = RefCell::new(Sink::default());
+}
+
+/// arm the sink of the current thread for the next generation.
+pub fn start(cfg: TraceCfg) {
+    SINK.with(|s| {
+        let mut s = s.borrow_mut();
+        *s = Sink::default();
+        s.on = true;
+        s.cfg = cfg;
+    });
+}
+
+/// disarm the sink and return what it recorded.
+pub fn take() -> Trace {
+    SINK.with(|s| {
+        let mut s = s.borrow_mut();
+        s.on = false;
+        std::mem::take(&mut s.trace)
+    })
+}
+
+/// kind tag of a simulated stack object.
+fn kind_tag(o: &StackObject) -> u8 {
+    match o {
+        StackObject::Int(_) => tag::INT,
+        StackObject::Float(_) => tag::FLOAT,
+        StackObject::Bool(_) => tag::BOOL,
+        StackObject::None => tag::NONE,
+        StackObject::Bytes(_) => tag::BYTES,
+        StackObject::String(_) => tag::STRING,
+        StackObject::ByteArray(_) => tag::BYTEARRAY,
+        StackObject::List(_) => tag::LIST,
+        StackObject::Tuple(_) => tag::TUPLE,
+        StackObject::Dict(_) => tag::DICT,
+        StackObject::Set(_) => tag::SET,
+        StackObject::FrozenSet(_) => tag::FROZENSET,
+        StackObject::Mark => tag::MARK,
+        StackObject::Global { .. } => tag::GLOBAL,
+        StackObject::Instance(_) => tag::INSTANCE,
+        StackObject::Callable(_) => tag::CALLABLE,
+        StackObject::Extension(_) => tag::EXTENSION,
+        StackObject::Any => tag::ANY,
+    }
+}
+
+/// kind tags of a generator's simulated stack (bottom first) and its memo keys.
+pub fn snapshot(g: &Generator) -> (Vec<u8>, Vec<usize>) {
+    let stack = g
+        .state
+        .stack
+        .inner
+        .iter()
+        .map(|o| kind_tag(&o.borrow()))
+        .collect();
+    let mut memo: Vec<usize> = g.state.memo.keys().copied().collect();
+    memo.sort_unstable();
+    (stack, memo)
+}
+
+fn burn(s: &mut Sink) {
+    s.emitted += 1;
+    if let Some(fuel) = s.cfg.fuel {
+        if s.emitted > fuel {
+            s.on = false;
+            panic!("{}", FUEL_PANIC);
+        }
+    }
+}
+
+fn step(g: &Generator, phase: u8, opcode: u8, valid: Vec<u8>) -> Step {
+    let (stack, memo) = snapshot(g);
+    Step {
+        phase,
+        opcode,
+        out_len: g.output.len(),
+        stack,
+        memo,
+        valid,
+    }
+}
+
+#[allow(dead_code)]
+pub(crate) fn on_target(g: &Generator, use_frame: bool, target_opcodes: usize) {
+    SINK.with(|s| {
+        let mut s = s.borrow_mut();
+        if s.on {
+            s.trace.started = true;
+            s.trace.use_frame = use_frame;
+            s.trace.target_opcodes = target_opcodes;
+            s.trace.header_len = g.output.len();
+            s.phase = PHASE_BODY;
+        }
+    });
+}
+
+#[allow(dead_code)]
+pub(crate) fn on_phase(phase: u8) {
+    SINK.with(|s| {
+        let mut s = s.borrow_mut();
+        if s.on {
+            s.phase = phase;
+        }
+    });
+}
+
+#[allow(dead_code)]
+pub(crate) fn on_body_step(g: &Generator, chosen: OpcodeKind) {
+    SINK.with(|s| {
+        let mut s = s.borrow_mut();
+        if s.on {
+            s.trace.body_steps += 1;
+            let valid = std::mem::take(&mut s.pending_valid);
+            if s.cfg.record_steps {
+                let st = step(g, PHASE_BODY, chosen.as_u8(), valid);
+                s.trace.steps.push(st);
+            }
+        }
+    });
+}
+
+#[allow(dead_code)]
+pub(crate) fn on_emit_opcode(g: &Generator, opcode: OpcodeKind) {
+    SINK.with(|s| {
+        let mut s = s.borrow_mut();
+        if s.on {
+            burn(&mut s);
+            if s.phase >= PHASE_TAIL {
+                if s.phase == PHASE_TAIL {
+                    s.trace.tail_steps += 1;
+                } else {
+                    s.trace.stop_steps += 1;
+                }
+                if s.cfg.record_steps {
+                    let st = step(g, s.phase, opcode.as_u8(), Vec::new());
+                    s.trace.steps.push(st);
+                }
+            }
+        }
+    });
+}
+
+#[allow(dead_code)]
+pub(crate) fn forced_choice(valid: &[OpcodeKind]) -> Option<usize> {
+    SINK.with(|s| {
+        let mut s = s.borrow_mut();
+        if !s.on {
+            return None;
+        }
+        if s.cfg.record_valid {
+            s.pending_valid = valid.iter().map(|o| o.as_u8()).collect();
+        }
+        if s.pos < s.cfg.script.len() {
+            let want = s.cfg.script[s.pos];
+            s.pos += 1;
+            s.trace.script_used += 1;
+            match valid.iter().position(|o| o.as_u8() == want) {
+                Some(i) => Some(i),
+                None => {
+                    s.trace.script_misses += 1;
+                    None
+                }
+            }
+        } else {
+            None
+        }
+    })
+}
